@@ -713,6 +713,19 @@ func (s *Solver) solve(asserts []Term, syms []string) (string, map[string]string
 			}
 		}
 	}
+	if res != "sat" && res != "unsat" && !strings.HasPrefix(res, "error") && time.Since(t0) >= s.timeout*8/10 {
+		// a timeout (both solvers ran out of time — typically a loaded machine, not a hard
+		// query: no query of the unchanged tree comes near the limit on an idle one): one more
+		// attempt with three times the limit before the answer is recorded as unknown
+		old := s.timeout
+		s.timeout = 3 * old
+		if usesFP(asserts) {
+			res, model = s.raceFP(asserts, syms)
+		} else {
+			res, model = s.runOn("z3", asserts, syms, s.timeout)
+		}
+		s.timeout = old
+	}
 	dt := time.Since(t0)
 	atomic.AddInt64(&gStats.Nanos, int64(dt))
 	ms := dt.Milliseconds()
